@@ -487,6 +487,13 @@ class PathError(TypeError):
     """Exception raised for errors in the Path class."""
 
 
+def is_fifo(path: str) -> bool:
+    try:
+        return stat.S_ISFIFO(os.stat(path).st_mode)
+    except OSError:
+        return False
+
+
 class Path(PathDeprecations):
     """Stores a (possibly relative) path and the corresponding absolute path.
 
@@ -626,7 +633,7 @@ class Path(PathDeprecations):
                 raise PathError(f"{ptype} is not executable: {abs_path!r}")
             if "D" in mode and os.path.isdir(abs_path):
                 raise PathError(f"Path is a directory: {abs_path!r}")
-            if "F" in mode and (os.path.isfile(abs_path) or stat.S_ISFIFO(os.stat(abs_path).st_mode)):
+            if "F" in mode and (os.path.isfile(abs_path) or is_fifo(abs_path)):
                 raise PathError(f"Path is a file: {abs_path!r}")
             if "R" in mode and os.access(abs_path, os.R_OK):
                 raise PathError(f"{ptype} is readable: {abs_path!r}")
